@@ -31,14 +31,15 @@ const (
 // randLog is the Conversation.Rand of a party: deterministic, keeps small values for SMP-sized reads
 // (so that the symbolic SMP model can recompute with cheap arithmetic), records every read.
 type randLog struct {
-	r       *RNG
-	reads   [][]byte
-	fail    int // fail the n-th next read (1-based); 0 = never
-	owner   *Party
-	zeroSMP bool // SMP-parameter sized reads return zero (a peer that chooses degenerate exponents)
+	r         *RNG
+	reads     [][]byte
+	fail      int // fail the n-th next read (1-based); 0 = never
+	owner     *Party
+	zeroSMP   bool            // SMP-parameter sized reads return zero (a peer that chooses degenerate exponents)
+	shortPub  bool            // C10: 40-byte values are re-drawn until g^x has a leading zero byte
 	shortWith func() [][]byte // C10: when set, 40-byte values are re-drawn until the D-H secret with one of these exponents has a leading zero byte
-	keep    bool // C08: keep every value handed out, the buffer it was written to, and the call site
-	draws   []draw
+	keep      bool            // C08: keep every value handed out, the buffer it was written to, and the call site
+	draws     []draw
 }
 
 // draw: one read from the random source (kept when randLog.keep is set)
@@ -91,6 +92,15 @@ func (l *randLog) Read(p []byte) (int, error) {
 		copy(p[n-5:], l.r.Bytes(5))
 	} else {
 		copy(p, l.r.Bytes(n))
+	}
+	if n == 40 && l.shortPub {
+		// re-draw until the public value g^x has a leading zero byte
+		for try := 0; try < 6000; try++ {
+			if len(new(big.Int).Exp(big.NewInt(2), new(big.Int).SetBytes(p), groupP).Bytes()) < 192 {
+				break
+			}
+			copy(p, l.r.Bytes(n))
+		}
 	}
 	if n == 40 && l.shortWith != nil {
 		if peers := l.shortWith(); len(peers) > 0 {
